@@ -45,8 +45,8 @@ def make(direction, n, parents, links, pat_idx, balance, now_kind):
     tasks = []
     ch = {i: [k for k in range(n) if parents[k] == i] for i in range(n)}
     for i in range(n):
-        tasks.append({'id': i + 1, 'name': f't{i + 1}', 'parent': parents[i], 'estimate': EST[i], 'spent': 1 if i == 2 else None,
-                      'resource': pat['res'][i], 'milestone': False, 'min_start': None, 'start': None, 'end': None, 'attrs': {}})
+        tasks.append({'id': i + 1, 'name': f't{i + 1}', 'parent': parents[i], 'estimate': EST[i % len(EST)] + (i // len(EST)), 'spent': 1 if i == 2 else None,
+                      'resource': pat['res'][i % len(pat['res'])], 'milestone': False, 'min_start': None, 'start': None, 'end': None, 'attrs': {}})
     leaves = [i for i in range(n) if not ch[i]]
     if pat.get('milestone_last') and leaves:
         tasks[leaves[-1]]['milestone'] = True
